@@ -15,7 +15,7 @@ def main(run: Run) -> int:
     H.LEVEL = 1 if thorough else 0
     n = len(H.cases())
     jobs = []
-    g = {"LEVEL": H.LEVEL, "NPOOL": 6 if thorough else 3, "YMAX": 2 if thorough else 1, "YOCC": 3 if thorough else 2}
+    g = {"LEVEL": H.LEVEL, "NPOOL": 4 if thorough else 3, "YMAX": 1, "YOCC": 3 if thorough else 2}
     cs = H.cases()
 
     def weight(text, flags):
